@@ -99,6 +99,9 @@ def linear(g, rd, f, idx, ctx, depth=0):
         last = c.rsplit('::', 1)[-1]
         if n.get('obj') is not None and last in ('size', 'length', 'count', 'max_size', 'Size'):
             return {'%s.%s()' % (path_str(access_path(f, n['obj'], ctx)), last): 1}
+        if n.get('obj') is not None and n.get('cconst') and not n.get('args'):
+            # a const getter without arguments: the call itself is the symbol
+            return {'%s.%s()' % (path_str(access_path(f, n['obj'], ctx)), last): 1}
         return None
     if k == 'sizeof' and 'v' in n:
         return {'1': n['v']}
